@@ -130,7 +130,8 @@ def run(tier="quick", seed=0, replay=None):
     if replay:
         print(open(replay).read())
         return 1
-    core.lean_stage(chk, "C17", extra_props=["E2E"])
+    core.lean_stage(chk, "C17", extra_props=["E2E", "E2Eb"])
+    core.soft_bridge(chk)
     from harness import cover
     from harness import fingerprint
     fingerprint.direct(chk, ['ixai/explainer/pfi.py', 'ixai/explainer/sage/incremental.py'])
